@@ -47,13 +47,14 @@ def judge(consts, recs, wd, name, shards=8):
     return out
 
 
-def run_config(run, prop, name, consts, wd, seed, vertex_cls="mixed", caching=False):
+def run_config(run, prop, name, consts, wd, seed, vertex_cls="mixed", caching=False, simulate=None, depth=None,
+               probe_filter=None, big=False):
     t0 = time.time()
-    gen = ST.generate(name, consts, wd)
+    gen = ST.generate(name, consts, wd, simulate=simulate, depth=depth, seed=seed + 11)
     run.add_model(name, gen, {k: (sorted(v) if isinstance(v, set) else v) for k, v in consts.items()})
     index = gen.pop("index")
     t1 = time.time()
-    spec = {"engine": "render", "kind": prop, "seed": seed}
+    spec = {"engine": "render", "kind": prop, "seed": seed, "big": big}
     agg = {"bad": 0, "n": 0, "judge_s": 0.0, "chunks": 0, "sampled": False}
 
     def probe_sink(probed):
@@ -89,7 +90,7 @@ def run_config(run, prop, name, consts, wd, seed, vertex_cls="mixed", caching=Fa
                         "text": r.get("text"), "parsed": r["res"]})
 
     _, confirmed, st, _ = explore.explore(consts, ST.base_state(consts), index, index, probe=spec, vertex_cls=vertex_cls,
-                                          keep_records=False, caching=caching, probe_sink=probe_sink)
+                                          keep_records=False, caching=caching, probe_sink=probe_sink, probe_filter=probe_filter)
     t2 = time.time()
     st.update({"renderings": agg["n"], "failing": agg["bad"], "t_generate_s": round(t1 - t0, 1),
                "t_execute_and_judge_s": round(t2 - t1, 1), "t_judge_s": round(agg["judge_s"], 1)})
@@ -139,6 +140,12 @@ def _check(prop, tier, seed, wd, rp, rule, cfgs_quick, cfgs_thorough, mandatory,
     # the same graphs with every vertex carrying the same explicit uid, and with neighbour caching on
     name, consts = cfgs[-1]
     run_config(run, prop, name + "+sameuid+cache", consts, wd, seed, vertex_cls="mixed-sameuid", caching=True)
+    # larger, denser universes from the specification's own random walk (member lists sampled)
+    from .checks_query import big_filter
+    kinds = {"D", "U", "D2"} if prop == "C14" else {"D", "U", "T"}
+    bname, bconsts = qcfg("graphs-sim-5x7", NV=5, InitBV=5, NL=7, Kinds=kinds, AllowNone=False, OnlyOps={"new"})
+    run_config(run, prop, bname, bconsts, wd, seed, simulate="num=12" if tier == "quick" else "num=80", depth=8,
+               probe_filter=big_filter(4, 10 if tier == "quick" else 5), big=True)
     run.exhaustive = True
     run.assumptions = ASSUME
     return run.finish(nontrivial_filter=nontrivial, mandatory=mandatory)
